@@ -568,7 +568,7 @@ fn peek_id(fd: RawFd) -> Option<usize> {
     }
 }
 
-fn peer_port(fd: RawFd) -> Option<u16> {
+fn peer_addr(fd: RawFd) -> Option<(u32, u16)> {
     let mut addr: libc::sockaddr_storage = unsafe { std::mem::zeroed() };
     let mut len = std::mem::size_of::<libc::sockaddr_storage>() as libc::socklen_t;
     let r = unsafe { libc::getpeername(fd, &mut addr as *mut _ as *mut libc::sockaddr, &mut len) };
@@ -577,9 +577,58 @@ fn peer_port(fd: RawFd) -> Option<u16> {
     }
     if addr.ss_family as i32 == libc::AF_INET {
         let a: &libc::sockaddr_in = unsafe { &*(&addr as *const _ as *const libc::sockaddr_in) };
-        Some(u16::from_be(a.sin_port))
+        Some((u32::from_be(a.sin_addr.s_addr), u16::from_be(a.sin_port)))
     } else {
         None
+    }
+}
+
+/// The loopback address client `id` of a world connects from: 127.90.hi.lo with hi.lo = id + 1.
+fn client_ip(id: usize) -> u32 {
+    (127u32 << 24) | (90 << 16) | ((id as u32 + 1) & 0xffff)
+}
+
+fn ip_client(ip: u32) -> Option<usize> {
+    if ip >> 16 == ((127 << 8) | 90) && ip & 0xffff != 0 {
+        Some((ip & 0xffff) as usize - 1)
+    } else {
+        None
+    }
+}
+
+/// Blocking TCP connect from `client_ip(id)` (port chosen by the kernel).
+fn tcp_connect_from(id: usize, to: &std::net::SocketAddr) -> io::Result<std::net::TcpStream> {
+    use std::os::unix::io::FromRawFd;
+    let to = match to {
+        std::net::SocketAddr::V4(a) => *a,
+        _ => return Err(io::Error::new(io::ErrorKind::Other, "ipv4 only")),
+    };
+    let fd = unsafe { libc::socket(libc::AF_INET, libc::SOCK_STREAM | libc::SOCK_CLOEXEC, 0) };
+    if fd < 0 {
+        return Err(io::Error::last_os_error());
+    }
+    let s = unsafe { std::net::TcpStream::from_raw_fd(fd) };
+    let mk = |ip: u32, port: u16| {
+        let mut a: libc::sockaddr_in = unsafe { std::mem::zeroed() };
+        a.sin_family = libc::AF_INET as libc::sa_family_t;
+        a.sin_port = port.to_be();
+        a.sin_addr.s_addr = ip.to_be();
+        a
+    };
+    let src = mk(client_ip(id), 0);
+    let sz = std::mem::size_of::<libc::sockaddr_in>() as libc::socklen_t;
+    if unsafe { libc::bind(fd, &src as *const _ as *const libc::sockaddr, sz) } != 0 {
+        return Err(io::Error::last_os_error());
+    }
+    let dst = mk(u32::from(*to.ip()), to.port());
+    loop {
+        if unsafe { libc::connect(fd, &dst as *const _ as *const libc::sockaddr, sz) } == 0 {
+            return Ok(s);
+        }
+        let e = io::Error::last_os_error();
+        if e.kind() != io::ErrorKind::Interrupted {
+            return Err(e);
+        }
     }
 }
 
@@ -612,16 +661,28 @@ impl World {
     }
 
     fn identify(&self, fd: RawFd) -> Option<usize> {
-        // a stream that the client has reset: only the hand-over record knows whose it is
-        if let Some(c) = self.fd_conn.borrow().get(&fd).copied() {
-            if self.clients.borrow().get(c).map_or(false, |cl| cl.reset) {
-                return Some(c);
+        // every TCP client of a world connects from its own loopback address (`client_ip`): the
+        // peer address names the client, whatever ports the kernel hands out (source ports repeat
+        // across destinations and after a reset)
+        if let Some((ip, port)) = peer_addr(fd) {
+            let cl = self.clients.borrow();
+            if let Some(c) = ip_client(ip) {
+                if cl.get(c).map_or(false, |x| x.port == port && port != 0) {
+                    return Some(c);
+                }
             }
         }
-        if let Some(port) = peer_port(fd) {
-            return self.clients.borrow().iter().position(|c| c.port == port && port != 0);
-        }
         let id = peek_id(fd);
+        if id.is_none() {
+            // the kernel cannot say whose stream this is any more: a stream that the client has
+            // reset. Only the hand-over record knows (looked at last, and only for a client that
+            // did reset: descriptor numbers are reused)
+            if let Some(c) = self.fd_conn.borrow().get(&fd).copied() {
+                if self.clients.borrow().get(c).map_or(false, |cl| cl.reset) {
+                    return Some(c);
+                }
+            }
+        }
         if let Some(i) = id {
             let n = self.clients.borrow().len();
             if i >= n {
@@ -1355,7 +1416,7 @@ impl Sys {
         let w = self.w.clone();
         let id = w.clients.borrow().len();
         let res: io::Result<(ClientSock, u16)> = match &w.laddrs.borrow()[l] {
-            LAddr::Tcp(addr) => std::net::TcpStream::connect(addr).and_then(|s| {
+            LAddr::Tcp(addr) => tcp_connect_from(id, addr).and_then(|s| {
                 let port = s.local_addr()?.port();
                 // RST on close: no TIME_WAIT pile-up over hundreds of thousands of executions
                 let lg = libc::linger { l_onoff: 1, l_linger: 0 };
